@@ -2152,6 +2152,32 @@ def check_config_immutable(ob, prog, fields, adt="anemo::config::Config", key="c
     ob.count(len(fields))
 
 
+def check_generated_layer_stacking(ob, prog, key="generated/add_layer"):
+    """Generated servers: `add_layer_for_<method>(layer)` stacks the new layer on the ones already installed on that method
+    (`field = InboundRequestLayer::new(Stack::new(self.field, layer))`) - an installed limiter / authorizer is never silently
+    replaced by a later layer.  Checked on the generated code that the build produced from the *current* templates (examples)."""
+    bs = [b for b in prog.bodies.values() if b.crate == "examples" and "_server::" in b.path and "::add_layer_for_" in b.path and b.kind != "Closure"]
+    ob.floor(bs, 1, "generated add_layer_for_* methods (examples crate)")
+    for b in bs:
+        o = Origins(b)
+        meth = b.path.split("::add_layer_for_")[-1]
+        field = f"{meth}_layer"
+        writes = [(st, o.of_rvalue(st["rv"])) for bl in b.blocks if not bl.get("cleanup") for st in bl["s"]
+                  if st["k"] == "assign" and not isinstance(st["lhs"], int) and st["lhs"]["l"] == 1 and any(isinstance(e, dict) and e.get("n") == field for e in st["lhs"]["p"])]
+        ok = len(writes) == 1
+        if ok:
+            t = strip_identity(writes[0][1])
+            ok = t[0] == "call" and t[1].endswith("::new") and len(t[2]) == 1
+            if ok:
+                stk = strip_identity(t[2][0])
+                ok = stk[0] == "call" and name_matches(stk[1], "tower_layer::stack::Stack::new") and len(stk[2]) == 2
+                if ok:
+                    a0, a1 = strip_identity(stk[2][0]), strip_identity(stk[2][1])
+                    ok = a0[0] == "field" and a0[2] == field and is_param(strip_identity(a0[1]), "self") and is_param(a1, "layer")
+        ob.require(ok, f"{key}/{meth}", f"{b.path} does not stack the given layer on the method's existing layers (Stack::new(self.{field}, layer))", b.path)
+        ob.require(is_param(strip_identity(o.of_local(0)), "self"), f"{key}/{meth}/returns-self", f"{b.path} does not return the server it was called on", b.path)
+
+
 def check_peer_id_identity_derived(ob, prog, key="PeerId"):
     """Everything keyed by PeerId (peer map, allow-list, per-peer semaphores and limiters) is exact only if equality and
     hashing of PeerId are the byte-wise derived ones: two different keys are two different peers."""
